@@ -54,17 +54,17 @@ Definition panic_cover : list (string * string * string * N * reason * string) :
     ("paseto-v2/src/core/pke.rs", "unseal_key", "unwrap", 1%N, ByLemma, "after the length check / split: LocalProofs.lg_unseal_no_panic, PublicProofs.pg_unseal_no_panic, Paserk unseal models");
     ("paseto-v2/src/core/public.rs", "is_identity", "index", 4%N, ConstSize, "indices 0 and 31 of a [u8; 32]");
     ("paseto-v2/src/core/public.rs", "preauth_secret", "expect", 1%N, LibTotal, "raw_sign_byupdate with an infallible closure");
-    ("paseto-v2/src/core/public.rs", "unseal", "split_at", 1%N, ByLemma, "after the length check / split: LocalProofs.lg_unseal_no_panic, PublicProofs.pg_unseal_no_panic, Paserk unseal models");
+    ("paseto-v2/src/core/public.rs", "unseal", "split_at", 1%N, ByLemma, "the mirror has the Panic branch (Rs.rs_sub / rs_split_at): NoPanic.v2_public_unseal_no_panic; guard constant tied to the source by GuardRules.guards_tied / guards_sufficient");
     ("paseto-v2/src/core/public.rs", "unseal", "unwrap", 1%N, ByLemma, "after the length check / split: LocalProofs.lg_unseal_no_panic, PublicProofs.pg_unseal_no_panic, Paserk unseal models");
     ("paseto-v2/src/core/pw_wrap.rs", "pw_wrap_key", "expect", 1%N, ConstSize, "the buffer was just created with size_of::<Prefix>() bytes");
     ("paseto-v2/src/core/pw_wrap.rs", "wrap_keys", "expect", 1%N, LibTotal, "HMAC accepts every key length; BLAKE2b keys of 32 bytes and outputs <= 64; HKDF output <= 255 * 48");
     ("paseto-v3-aws-lc/src/core/local.rs", "dangerous_seal_with_nonce", "split_at", 1%N, OutOfScope, "caller-supplied nonce shorter than the scheme's: outside C04's scope (recorded in DESIGN.md)");
-    ("paseto-v3-aws-lc/src/core/local.rs", "unseal", "split_at", 2%N, ByLemma, "after the length check / split: LocalProofs.lg_unseal_no_panic, PublicProofs.pg_unseal_no_panic, Paserk unseal models");
+    ("paseto-v3-aws-lc/src/core/local.rs", "unseal", "split_at", 2%N, ByLemma, "the mirror has the Panic branches (Rs.rs_sub / rs_split_at x2): NoPanic.lc_local_unseal_no_panic; guard constants tied to the source by GuardRules.guards_tied / guards_sufficient");
     ("paseto-v3-aws-lc/src/core/mod.rs", "hash_key", "assert", 1%N, ConstSize, "digest output has 48 (33) bytes");
     ("paseto-v3-aws-lc/src/core/mod.rs", "hash_key", "index", 1%N, ConstSize, "digest output has 48 (33) bytes");
     ("paseto-v3-aws-lc/src/core/mod.rs", "hash_key", "unwrap", 1%N, ConstSize, "digest output has 48 (33) bytes");
     ("paseto-v3-aws-lc/src/core/pie_wrap.rs", "wrap_keys", "index", 1%N, LibTotal, "HMAC accepts every key length; BLAKE2b keys of 32 bytes and outputs <= 64; HKDF output <= 255 * 48");
-    ("paseto-v3-aws-lc/src/core/public.rs", "unseal", "split_at", 1%N, ByLemma, "after the length check / split: LocalProofs.lg_unseal_no_panic, PublicProofs.pg_unseal_no_panic, Paserk unseal models");
+    ("paseto-v3-aws-lc/src/core/public.rs", "unseal", "split_at", 1%N, ByLemma, "the mirror has the Panic branch (Rs.rs_sub / rs_split_at): NoPanic.lc_public_unseal_no_panic; guard constant tied to the source by GuardRules");
     ("paseto-v3-aws-lc/src/core/pw_wrap.rs", "pw_wrap_key", "expect", 1%N, ConstSize, "the buffer was just created with size_of::<Prefix>() bytes");
     ("paseto-v3-aws-lc/src/core/pw_wrap.rs", "wrap_keys", "index", 1%N, LibTotal, "HMAC accepts every key length; BLAKE2b keys of 32 bytes and outputs <= 64; HKDF output <= 255 * 48");
     ("paseto-v3-aws-lc/src/lc/mod.rs", "append_to_vec", "unchecked", 1%N, Ffi, "projections of an owned, fully initialised EC_KEY are non-null; EC_group_p384 is static");
@@ -98,7 +98,7 @@ Definition panic_cover : list (string * string * string * N * reason * string) :
     ("paseto-v3/src/core/pw_wrap.rs", "pw_wrap_key", "expect", 1%N, ConstSize, "the buffer was just created with size_of::<Prefix>() bytes");
     ("paseto-v3/src/core/pw_wrap.rs", "wrap_keys", "expect", 2%N, LibTotal, "HMAC accepts every key length; BLAKE2b keys of 32 bytes and outputs <= 64; HKDF output <= 255 * 48");
     ("paseto-v4-sodium/src/core/local.rs", "keys", "expect", 3%N, LibTotal, "HMAC accepts every key length; BLAKE2b keys of 32 bytes and outputs <= 64; HKDF output <= 255 * 48");
-    ("paseto-v4-sodium/src/core/local.rs", "unseal", "copy_from_slice", 1%N, ByLemma, "after the length check / split: LocalProofs.lg_unseal_no_panic, PublicProofs.pg_unseal_no_panic, Paserk unseal models");
+    ("paseto-v4-sodium/src/core/local.rs", "unseal", "copy_from_slice", 1%N, LibTotal, "xchacha20 stream_xor returns exactly as many bytes as it is given (law xchacha20_len)");
     ("paseto-v4-sodium/src/core/mod.rs", "hash_key", "expect", 2%N, ConstSize, "digest output has 48 (33) bytes");
     ("paseto-v4-sodium/src/core/mod.rs", "kdf", "expect", 1%N, LibTotal, "HMAC accepts every key length; BLAKE2b keys of 32 bytes and outputs <= 64; HKDF output <= 255 * 48");
     ("paseto-v4-sodium/src/core/pie_wrap.rs", "pie_unwrap_key", "copy_from_slice", 1%N, LibTotal, "xchacha20 stream_xor returns exactly as many bytes as it is given");
@@ -119,7 +119,7 @@ Definition panic_cover : list (string * string * string * N * reason * string) :
     ("paseto-v4/src/core/pke.rs", "unseal_key", "unwrap", 1%N, ByLemma, "after the length check / split: LocalProofs.lg_unseal_no_panic, PublicProofs.pg_unseal_no_panic, Paserk unseal models");
     ("paseto-v4/src/core/public.rs", "is_identity", "index", 4%N, ConstSize, "indices 0 and 31 of a [u8; 32]");
     ("paseto-v4/src/core/public.rs", "preauth_secret", "expect", 1%N, LibTotal, "raw_sign_byupdate with an infallible closure");
-    ("paseto-v4/src/core/public.rs", "unseal", "split_at", 1%N, ByLemma, "after the length check / split: LocalProofs.lg_unseal_no_panic, PublicProofs.pg_unseal_no_panic, Paserk unseal models");
+    ("paseto-v4/src/core/public.rs", "unseal", "split_at", 1%N, ByLemma, "the mirror has the Panic branch (Rs.rs_sub / rs_split_at / rs_exact): NoPanic.v4_public_unseal_no_panic; guard constant tied to the source by GuardRules");
     ("paseto-v4/src/core/public.rs", "unseal", "unwrap", 1%N, ByLemma, "after the length check / split: LocalProofs.lg_unseal_no_panic, PublicProofs.pg_unseal_no_panic, Paserk unseal models");
     ("paseto-v4/src/core/pw_wrap.rs", "pw_wrap_key", "expect", 1%N, ConstSize, "the buffer was just created with size_of::<Prefix>() bytes");
     ("paseto-v4/src/core/pw_wrap.rs", "wrap_keys", "expect", 1%N, LibTotal, "HMAC accepts every key length; BLAKE2b keys of 32 bytes and outputs <= 64; HKDF output <= 255 * 48") ].
